@@ -13,6 +13,7 @@ import (
 	"fmt"
 	"os"
 	"strings"
+	"sync"
 	"testing"
 	"time"
 
@@ -23,6 +24,14 @@ type C04Base struct {
 	Name  string
 	Count int
 	Extra float64
+}
+
+type c04Private struct {
+	Name    string
+	mu      sync.Mutex
+	created time.Time
+	small   int
+	Count   int
 }
 
 type c04OwnFirst struct {
@@ -182,6 +191,8 @@ func TestRAC_C04(t *testing.T) {
 			map[string]interface{}{"Name": "m", "Count": 9, "F64": 0.25, "IS": []int{1}, "M": map[string]interface{}{"a": 1}, "B": false, "T": when}, nil},
 		{"map with a key that is spelled with and without the legacy $ prefix", map[string]interface{}{"$Name": "prefixed", "Name": "plain", "Count": 1},
 			map[string]interface{}{"Name": "plain", "Count": 1}, nil},
+		{"map with keys that start with an underscore", map[string]interface{}{"_id": "x1", "__v": 2, "_": true, "Name": "u"}, map[string]interface{}{"_id": "x1", "__v": 2, "_": true, "Name": "u"}, nil},
+		{"struct with unexported fields", &c04Private{Name: "p", Count: 6, created: time.Unix(5, 0), small: 3}, map[string]interface{}{"Name": "p", "Count": 6}, map[string][]interface{}{"created": {5}, "small": {3}, "mu": nil}},
 		{"map of strings", map[string]string{"Name": "ms", "S": "t"}, map[string]interface{}{"Name": "ms", "S": "t"}, nil},
 		{"map of integers", map[string]int{"Count": 4, "Int": -9}, map[string]interface{}{"Count": 4, "Int": -9}, nil},
 		{"map of slices", map[string][]int{"IS": {4, 5}}, map[string]interface{}{"IS": []int{4, 5}}, nil},
@@ -194,7 +205,7 @@ func TestRAC_C04(t *testing.T) {
 		{"nil object", nil, map[string]interface{}{}, nil},
 		{"record type A again", c04RecA(), map[string]interface{}{"Failures": 3, "Limit": 5, "Host": "a"}, nil},
 	}
-	names := []string{"Name", "Count", "Extra", "C04Base", "Int", "I64", "F32", "F64", "S", "B", "T", "IS", "SS", "FS", "BS", "Empty", "M", "I8", "U", "P", "Ch", "Fn", "Any", "Inner", "Mixed", "Failures", "Limit", "Host", "Nothing"}
+	names := []string{"Name", "Count", "Extra", "C04Base", "Int", "I64", "F32", "F64", "S", "B", "T", "IS", "SS", "FS", "BS", "Empty", "M", "I8", "U", "P", "Ch", "Fn", "Any", "Inner", "Mixed", "Failures", "Limit", "Host", "Nothing", "_id", "__v", "_", "created", "small", "mu"}
 	add := func(kind, script, input, want, got string) {
 		if len(rep.Violations) < 16 {
 			rep.Violations = append(rep.Violations, racVio{Kind: kind, Script: script, Input: input, Expected: want, Got: got})
